@@ -771,6 +771,7 @@ func precedesInCFG(fn *ssa.Function, a, b ssa.Instruction) bool {
 func checkC18(c *Ctx) {
 	// descriptions and file names are UTF-16LE text with a fixed byte order (shared with C17)
 	c.ruleUTF16()
+	c.ruleGUIDFieldDecode("G7.fields", M+"/efi/device.HardDriveMediaDevicePath.PartitionSignature")
 	c.rulePartialField("T6.partial", func(f *ssa.Function) bool { return strings.Contains(name(f), "efi/device.") })
 	c.ruleCodeUnits("T7.units", func(f *ssa.Function) bool {
 		return strings.Contains(name(f), "efi/device.") || strings.Contains(name(f), "efivar")
@@ -1581,4 +1582,77 @@ func (c *Ctx) ruleDevicePathNumbers(rule string) {
 		return
 	}
 	c.R.Check(len(bad) == 0, rule, "efi/device", "constants", "-", "device-path type and sub-type constants carry the numbers UEFI assigns", strings.Join(bad, "; "))
+}
+
+// ruleGUIDFieldDecode (G7.fields): a 16-byte EFI_GUID kept as a byte array in a
+// structure (the GPT partition signature) is taken apart as the format lays it
+// out — a little-endian uint32 at 0, little-endian uint16s at 4 and 6, and
+// eight bytes that are a byte sequence, not numbers. A fixed-width integer
+// decode that starts at offset 8 or later swaps bytes of Data4; a big-endian
+// one in the first eight bytes reads the text order.
+func (c *Ctx) ruleGUIDFieldDecode(rule string, fieldIDs ...string) {
+	want := map[string]bool{}
+	for _, f := range fieldIDs {
+		want[f] = true
+	}
+	n := 0
+	counts := map[string]int{}
+	for _, fn := range c.P.LibFunctions() {
+		if fn.Pkg == nil || !strings.HasSuffix(fn.Pkg.Pkg.Path(), "/efi/device") {
+			continue
+		}
+		fn := fn
+		instrsOf(fn, func(i ssa.Instruction) {
+			call, ok := i.(*ssa.Call)
+			if !ok {
+				return
+			}
+			w, order, put, isU := uintCallWidth(ir.CallID(call))
+			if !isU || put {
+				return
+			}
+			args := ir.CallArgs(call)
+			// the slice handed in: offsets of nested constant re-slicings add up
+			v := args[len(args)-1]
+			off, exact := int64(0), true
+			for depth := 0; depth < 6; depth++ {
+				sl, isSl := v.(*ssa.Slice)
+				if !isSl {
+					break
+				}
+				if sl.Low != nil {
+					k, isK := ir.ConstInt(sl.Low)
+					if !isK {
+						exact = false
+					}
+					off += k
+				}
+				v = sl.X
+			}
+			if !want[ir.FieldID(v)] {
+				return
+			}
+			n++
+			key := ordinalKey(counts, name(fn)+":guid-field")
+			construct := strings.TrimPrefix(key, name(fn)+":")
+			switch {
+			case !exact:
+				c.R.Infof(rule, name(fn), construct, c.IPos(call), "not decided for this shape: the offset of the decode into the GUID bytes is not a constant")
+			case off >= 8:
+				c.R.Violf(rule, name(fn), construct, c.IPos(call), "the last eight bytes of an EFI_GUID are a byte sequence",
+					fmt.Sprintf("a %d-byte %s integer is decoded at offset %d of the GUID: Data4 is not a number, its bytes are printed in the order they are stored (…-b67c-… comes out as …-7cb6-…)", w, order, off))
+			case order != "LE":
+				c.R.Violf(rule, name(fn), construct, c.IPos(call), "the first three fields of an EFI_GUID in a structure are little endian",
+					fmt.Sprintf("the field at offset %d is decoded big endian: that is the text order, not the in-structure layout", off))
+			case !(off == 0 && w == 4 || off == 4 && w == 2 || off == 6 && w == 2):
+				c.R.Violf(rule, name(fn), construct, c.IPos(call), "the fields of an EFI_GUID are a uint32 at 0 and uint16s at 4 and 6",
+					fmt.Sprintf("a %d-byte integer is decoded at offset %d", w, off))
+			default:
+				c.R.Okf(rule, name(fn), construct, c.IPos(call), "GUID field decoded little endian at its offset")
+			}
+		})
+	}
+	if n == 0 {
+		c.R.Okf(rule, "-", "scan", "-", "no fixed-width integer is decoded by hand from a GUID byte array in efi/device")
+	}
 }
